@@ -571,14 +571,21 @@ class LoopTr:
             return '(.charAt .idx)'
         self.err('hashed value not understood')
 
+    HVAL_PRIM = {'(.dAt': '.dbl', '(.argAt': '.expr', '.childArg': '.expr', '.funcName': '.cstr', '(.charAt': '.char'}
+
     def hcall(self, e):
-        """HashCombine(hash, v) -> hval text; Hash(e[, v]) -> list of leading values"""
+        """HashCombine(hash, v) -> hval text; the overload it resolves to must be the primitive of that value"""
         e = norm(e)
         if e.get('kind') == 'CallExpr':
-            nm, _ = callee_name(e)
+            nm, ref = callee_name(e)
             a = kids(e)[1:]
             if nm == 'HashCombine' and len(a) == 2 and is_ref_to(a[0], self.hashvar):
-                return self.hval(a[1])
+                v = self.hval(a[1])
+                want = self.HVAL_PRIM[v.split(' ')[0]]
+                got = hc_prim(ref)
+                if got != want:
+                    self.err('%s (primitive %s) is hashed through `%s`' % (v, want, ref.get('type', {}).get('qualType')))
+                return v
         self.err('not `HashCombine(hash, v)`')
 
     def hstmts(self, sts):
@@ -596,7 +603,13 @@ class LoopTr:
                         if not is_ref_to(a[0], self.param):
                             self.err('Hash(...) of something else than the parameter')
                         self.hashvar = v['id']
-                        out += ['.combine %s' % self.hval(x) for x in a[1:]]
+                        for x in a[1:]:
+                            hv = self.hval(x)
+                            q = callee_name(ni)[1].get('type', {}).get('qualType', '')
+                            m = re.match(r'^std::size_t \(.*, const (.+?) ?&\)$', q)
+                            if not m or PRIM_OF_T.get(m.group(1)) != self.HVAL_PRIM[hv.split(' ')[0]]:
+                                self.err('%s is hashed through the helper `%s`' % (hv, q))
+                            out.append('.combine %s' % hv)
                     elif v.get('type', {}).get('qualType') == 'int' and self.count_of(init, 'other'):
                         self.ints[v['id']] = '.selfN'
                     else:
@@ -725,6 +738,30 @@ def cmp_body(d):
         raise TranslateError('ExprComparator::%s: %s' % (nm, ex))
 
 
+HC_TEMPLATE = re.compile(r'^std::size_t \(std::size_t, const (.+?) ?&\)$')
+PRIM_OF_T = {'double': '.dbl', 'int': '.int', 'bool': '.bool', 'char': '.char', 'char *const': '.cstr', 'mp::Expr': '.expr',
+             'mp::BasicExpr<mp::expr::FIRST_EXPR, mp::expr::LAST_EXPR>': '.expr'}
+
+
+def hc_prim(ref):
+    """primitive hasher behind the HashCombine overload a call resolves to: the template
+    `HashCombine<T>(seed, const T&)` = std::hash<T> (its body is checked in main), or one of the two forwarders of
+    src/expr.cc to HashCombine<mp::Expr>; any other overload is refused"""
+    q = ref.get('type', {}).get('qualType', '')
+    m = HC_TEMPLATE.match(q)
+    if m:
+        t = m.group(1)
+        if t in PRIM_OF_T:
+            return PRIM_OF_T[t]
+        if t.startswith('mp::BasicExpr<'):      # only std::hash<mp::Expr> exists for these
+            return '.expr'
+        raise TranslateError('HashCombine<%s> is not a primitive the model has' % t)
+    if q in ('std::size_t (std::size_t, mp::Reference)',) or re.match(r'^std::size_t \(std::size_t, mp::BasicExpr<.*>\)$', q) \
+            or re.match(r'^std::size_t \(std::size_t, BasicExpr<.*>\)$', q):
+        return '.expr'
+    raise TranslateError('a hashed value goes through the overload `HashCombine : %s`, which is neither the std::hash<T> template nor a forwarder to HashCombine<mp::Expr>' % q)
+
+
 def prim_of(ty):
     if ty in ('double', 'int', 'bool'):
         return {'double': '.dbl', 'int': '.int', 'bool': '.bool'}[ty]
@@ -748,7 +785,22 @@ def hash_body(d, hasher_cls_ids):
                 raise TranslateError('hashed value is not e.f()')
             mc_t = norm(e).get('type', {})
             ty = mc_t.get('desugaredQualType', mc_t.get('qualType', ''))
-            return '(%s, %s)' % (FLD[f], prim_of(mc_t.get('qualType', ty) if mc_t.get('qualType') in ('double', 'int', 'bool') else ty))
+            return (FLD[f], prim_of(mc_t.get('qualType', ty) if mc_t.get('qualType') in ('double', 'int', 'bool') else ty))
+
+        def via(ref, fp, helper):
+            """the overload the call resolves to must be the primitive the field's type asks for"""
+            q = ref.get('type', {}).get('qualType', '')
+            if helper:    # ExprHasher::Hash<T>(Expr, const T &): its body (checked in main) is HashCombine(Hash(e), value)
+                m = re.match(r'^std::size_t \(.*, const (.+?) ?&\)$', q)
+                t = m.group(1) if m else None
+                got = PRIM_OF_T.get(t) or ('.expr' if t and t.startswith('mp::BasicExpr<') else None)
+                if got is None:
+                    raise TranslateError('Hash helper of signature %s' % q)
+            else:
+                got = hc_prim(ref)
+            if got != fp[1]:
+                raise TranslateError('field %s (primitive %s) is hashed through %s' % (fp[0], fp[1], q))
+            return '(%s, %s)' % fp
 
         def H(e):
             e = norm(e)
@@ -760,9 +812,9 @@ def hash_body(d, hasher_cls_ids):
                 if cn == 'Hash' and len(a) == 1 and is_ref_to(a[0], ps[0]['id']):
                     return []
                 if cn == 'Hash' and len(a) == 2 and is_ref_to(a[0], ps[0]['id']):
-                    return [field(a[1])]
+                    return [via(ref, field(a[1]), True)]
                 if cn == 'HashCombine' and len(a) == 2:
-                    return H(a[0]) + [field(a[1])]
+                    return H(a[0]) + [via(ref, field(a[1]), False)]
             raise TranslateError('not a Hash/HashCombine chain')
         for s in st[:-1]:
             if s.get('kind') != 'DeclStmt' or len(kids(s)) != 1 or kids(s)[0].get('kind') != 'VarDecl':
@@ -926,6 +978,13 @@ def main():
                 icn, _ = callee_name(inner) if inner.get('kind') == 'CallExpr' else (None, None)
                 if not (cn == 'HashCombine' and icn == 'Hash' and len(kids(inner)) == 2 and is_ref_to(kids(inner)[1], ps[0]['id']) and is_ref_to(a[1], ps[1]['id'])):
                     raise TranslateError('ExprHasher::Hash(Expr, value) is not `HashCombine(Hash(e), value)`')
+                vt = ps[1].get('type', {}).get('qualType', '')
+                m = re.match(r'^const (.+?) ?&$', vt)
+                want = PRIM_OF_T.get(m.group(1)) if m else None
+                if want is None and m and m.group(1).startswith('mp::BasicExpr<'):
+                    want = '.expr'
+                if hc_prim(ref) != want:
+                    raise TranslateError('ExprHasher::Hash<%s> combines its value through `%s`' % (vt, ref.get('type', {}).get('qualType')))
     if seed is None:
         raise TranslateError('ExprHasher::Hash(Expr) not found')
 
@@ -933,6 +992,7 @@ def main():
     hc = dump(repo, 'HashCombine', work)
     terms = set()
     n_inst = 0
+    inst_types = set()
     for d in hc:
         if d.get('kind') == 'FunctionTemplateDecl':
             for f in kids(d):
@@ -950,13 +1010,17 @@ def main():
                         continue
                     terms.add(arith(kids(st[0])[0], ps[0]['id'], {'v': ps[1]['id']}))
                     n_inst += 1
+                    m = re.match(r'^const (.+?) ?&$', ps[1].get('type', {}).get('qualType', ''))
+                    inst_types.add('mp::Expr' if m and m.group(1).startswith('mp::BasicExpr<') else m.group(1) if m else '?')
         elif d.get('kind') == 'FunctionDecl' and body_of(d) is not None:
             ps = params(d)
             st = kids(body_of(d))
-            inner = norm(kids(st[0])[0]) if len(st) == 1 and st[0].get('kind') == 'ReturnStmt' else {}
+            inner = norm(kids(st[0])[0]) if len(st) == 1 and st[0].get('kind') == 'ReturnStmt' and kids(st[0]) else {}
             a = kids(inner)[1:] if inner.get('kind') == 'CallExpr' else []
-            if not (callee_name(inner)[0] == 'HashCombine' and len(a) == 2 and is_ref_to(a[0], ps[0]['id']) and is_ref_to(a[1], ps[1]['id'])):
-                raise TranslateError('HashCombine(seed, Reference) does not forward (seed, r)')
+            sig = d.get('type', {}).get('qualType', '')
+            if not (inner.get('kind') == 'CallExpr' and callee_name(inner)[0] == 'HashCombine' and len(a) == 2 and len(ps) == 2
+                    and is_ref_to(a[0], ps[0]['id']) and is_ref_to(a[1], ps[1]['id']) and hc_prim(callee_name(inner)[1]) == '.expr'):
+                raise TranslateError('overload `HashCombine : %s` is not a forwarder `return HashCombine<mp::Expr>(seed, x);` - the model knows no such primitive' % sig)
     if len(terms) != 1 or n_inst < 4:
         raise TranslateError('HashCombine instantiations disagree or are missing: %s' % sorted(terms))
     comb = terms.pop()
@@ -966,8 +1030,16 @@ def main():
     for clsname, wanted in (('Function', ('operator==', 'operator!=', 'name')),
                             ('PLTerm', ('num_breakpoints', 'breakpoint', 'slope', 'arg')),
                             ('CallExpr', ('function', 'num_args', 'arg')),
-                            ('StringLiteral', ('value',))):
-        ds = [d for d in dump(repo, 'mp::' + clsname, work) if d.get('kind') == 'CXXRecordDecl' and d.get('name') == clsname and d.get('completeDefinition')]
+                            ('StringLiteral', ('value',)),
+                            ('BasicExprFactory', ('Copy', 'MakeStringLiteral'))):
+        def records(n):
+            if n.get('kind') == 'CXXRecordDecl' and n.get('name') == clsname and n.get('completeDefinition'):
+                yield n
+            elif n.get('kind') == 'ClassTemplateDecl':
+                for c in kids(n):
+                    if c.get('kind') == 'CXXRecordDecl':
+                        yield from records(c)
+        ds = [r for d in dump(repo, 'mp::' + clsname, work) for r in records(d)][:1]
         if len(ds) != 1:
             raise TranslateError('class mp::%s not found' % clsname)
         for w in wanted:
@@ -987,7 +1059,12 @@ def main():
           '/-- `ExprHasher::Hash(Expr e)` = `HashCombine<int>(%d, e.kind())`; `Hash(e, v)` = `HashCombine(Hash(e), v)` -/' % seed,
           'def hashSeed : UInt64 := %d' % seed, '',
           '/-- `internal::HashCombine<T>(seed, v)` with `h = std::hash<T>()(v)` (size_t = 64-bit unsigned) -/',
-          'def hashCombine (seed h : UInt64) : UInt64 := ' + comb, '']
+          'def hashCombine (seed h : UInt64) : UInt64 := ' + comb, '',
+          '/-- the `T` of every instantiated `HashCombine<T>`: the primitive hashers `std::hash<T>` the hasher reaches',
+          '(`Prim.dbl` = `std::hash<double>`, `.int` = `std::hash<int>`, `.bool` = `std::hash<bool>`, `.expr` = `std::hash<mp::Expr>`;',
+          '`char` and `const char*` occur in the string and call loops); every hashed value was checked to go through one of',
+          'them or through a forwarder to `HashCombine<mp::Expr>` -/',
+          'def hashCombineInstances : List String := [%s]' % ', '.join('"%s"' % t for t in sorted(inst_types)), '']
     shapes = []
     for name, lname, btype in (('ExprComparator', 'cmp', 'CmpBody'), ('ExprHasher', 'hash', 'HashBody')):
         per_kind, bodies = res[name]
@@ -1026,10 +1103,10 @@ def main():
     text = '\n'.join(L) + '\n'
     if '--freeze' in sys.argv:
         fz = sys.argv[sys.argv.index('--freeze') + 1]
-        F = ['/- Frozen copies of the syntax trees of the loop-carrying handlers, written by',
-             '   `translators/gen_expr_c18.py --freeze` from the tree the hand model in Model.lean was written against',
-             '   (and re-frozen after each reviewed change of those functions).  `C18_gen_shape_*` compare them with',
-             '   the trees regenerated on every run. -/', 'import MpVerif.C18.GenTypes', 'namespace MpVerif.C18.Frozen', 'open MpVerif.C18', '']
+        F = ['/- TRIPWIRES.  Frozen copies of the normalised syntax trees of small members of include/mp/expr.h whose',
+             '   meaning `GenSem.lean` assumes (accessors of Function / PLTerm / CallExpr / StringLiteral, the factory\'s string',
+             '   copy), written by `translators/gen_expr_c18.py --freeze` after a reviewed change.  `C18_gen_helper_*` compare them',
+             '   with the trees regenerated on every run: they detect a change, they prove nothing about what the members do. -/', 'import MpVerif.C18.GenTypes', 'namespace MpVerif.C18.Frozen', 'open MpVerif.C18', '']
         for name, lname in (('ExprComparator', 'cmp'), ('ExprHasher', 'hash')):
             for key, b in sorted(res[name][1].items()):
                 if b[0] == 'opaque':
@@ -1051,4 +1128,8 @@ if __name__ == '__main__':
         main()
     except TranslateError as e:
         print('TRANSLATE-ERROR: %s' % e)
+        sys.exit(3)
+    except Exception as e:     # an AST shape the recognisers did not anticipate: equally loud
+        import traceback
+        print('TRANSLATE-ERROR: unexpected AST shape (%s: %s) at %s' % (type(e).__name__, e, traceback.format_exc().strip().split('\n')[-3].strip()))
         sys.exit(3)
